@@ -58,6 +58,10 @@ def semantic_agree(impl, model, aux):
     # same wrapper
     if (isinstance(impl, list) and impl[0] in ("S", "OK")) != (isinstance(model, list) and model[0] in ("S", "OK")):
         return False
+    if isinstance(aux, list) and aux and aux[0] == "BIG":
+        # result too large for the driver's list-based canonicaliser: exact array equality with the model's
+        # (proved canonical) result
+        return impl == model
     return isinstance(aux, list) and aux[0] == "T" and aux[2] == aux[3]
 
 
